@@ -9,26 +9,28 @@ EXTENDS TraceCommon, Pipeline
 
 CONSTANT CheckStreams     \* TRUE: also check the partition into streams (C08); FALSE: entries only (C01)
 
-VARIABLES recs, sel, stages, limit, exp, open,
+VARIABLES recs, sel, stages, limit, exp, open, unsorted,
           matched, returned,
           curStream, curLabels, lastTs, seenL      \* stream bookkeeping (C08)
-fam == <<recs, sel, stages, limit, exp, open, matched, returned, curStream, curLabels, lastTs, seenL>>
+fam == <<recs, sel, stages, limit, exp, open, unsorted, matched, returned, curStream, curLabels, lastTs, seenL>>
 strm == <<curStream, curLabels, lastTs, seenL>>
 vars == <<tcvars, fam>>
 
 TsLt(a, b) == a[1] < b[1] \/ (a[1] = b[1] /\ a[2] < b[2])
 SortedRecs(rs) == \A i \in 1..(Len(rs) - 1) : ~TsLt(rs[i + 1].ts, rs[i].ts)
-CaseOk == SortedRecs(recs) /\ (\A k \in DOMAIN stages : StageWellFormed(stages[k])) /\ UnambiguousText(stages)
+\* records come in time order - or in any order when the case says the storage is unordered and every record is asked for
+\* (the specification processes them in the order given, as the engine does)
+CaseOk == (SortedRecs(recs) \/ (unsorted /\ limit <= 0)) /\ (\A k \in DOMAIN stages : StageWellFormed(stages[k])) /\ UnambiguousText(stages)
           /\ (\A k \in DOMAIN sel : sel[k].op \in {"re", "nre"} => sel[k].val = ReText(sel[k].re))
 
-Init == TCInit /\ recs = <<>> /\ sel = <<>> /\ stages = <<>> /\ limit = 0 /\ exp = <<>> /\ open = FALSE /\ matched = {} /\ returned = FALSE
+Init == TCInit /\ unsorted = FALSE /\ recs = <<>> /\ sel = <<>> /\ stages = <<>> /\ limit = 0 /\ exp = <<>> /\ open = FALSE /\ matched = {} /\ returned = FALSE
         /\ curStream = 0 /\ curLabels = {} /\ lastTs = <<0, 0>> /\ seenL = {}
-Start == Begin /\ recs' = Trace[l].in.recs /\ sel' = Trace[l].in.sel /\ stages' = Trace[l].in.stages /\ limit' = Trace[l].in.limit
+Start == Begin /\ unsorted' = (IF Has(Trace[l].in, "unsorted") THEN Trace[l].in.unsorted ELSE FALSE) /\ recs' = Trace[l].in.recs /\ sel' = Trace[l].in.sel /\ stages' = Trace[l].in.stages /\ limit' = Trace[l].in.limit
          /\ exp' = LogResult(Trace[l].in.sel, Trace[l].in.stages, Trace[l].in.recs)
          /\ open' = AnyOpen(Trace[l].in.sel, Trace[l].in.stages, Trace[l].in.recs)
          /\ matched' = {} /\ returned' = FALSE /\ curStream' = 0 /\ curLabels' = {} /\ lastTs' = <<0, 0>> /\ seenL' = {}
 
-EvRun == IsEv("Run") /\ CaseOk /\ Accept /\ matched' = {} /\ returned' = FALSE /\ UNCHANGED <<recs, sel, stages, limit, exp, open>>
+EvRun == IsEv("Run") /\ CaseOk /\ Accept /\ matched' = {} /\ returned' = FALSE /\ UNCHANGED <<recs, sel, stages, limit, exp, open, unsorted>>
          /\ curStream' = 0 /\ curLabels' = {} /\ lastTs' = <<0, 0>> /\ seenL' = {}
 BadCase == RejectEnv /\ Ev.ev = "Run" /\ ~CaseOk /\ UNCHANGED fam
 
@@ -61,14 +63,14 @@ EntryOk == ~returned /\ (open \/ \E i \in DOMAIN exp : Fits(i)) /\ StreamOk
 EvEntry == IsEv("Entry") /\ EntryOk /\ Accept
            /\ matched' = (IF open THEN matched ELSE matched \cup {CHOOSE i \in DOMAIN exp : Fits(i)})
            /\ curStream' = Ev.stream /\ curLabels' = PairsOf(Ev.labels) /\ lastTs' = Ev.ts /\ seenL' = seenL \cup {PairsOf(Ev.labels)}
-           /\ UNCHANGED <<recs, sel, stages, limit, exp, open, returned>>
+           /\ UNCHANGED <<recs, sel, stages, limit, exp, open, unsorted, returned>>
 
 Min(a, b) == IF a < b THEN a ELSE b
 ReturnOk == /\ ~returned /\ Ev.outcome = "ok"
             /\ (open \/ IF limit > 0 THEN Cardinality(matched) = Min(limit, Len(exp))
                                                /\ \A i \in matched, j \in DOMAIN exp \ matched : ~TsLt(exp[j].ts, exp[i].ts)
                         ELSE matched = DOMAIN exp)
-EvReturn == IsEv("Return") /\ ReturnOk /\ Accept /\ returned' = TRUE /\ UNCHANGED <<recs, sel, stages, limit, exp, open, matched>> /\ UNCHANGED strm
+EvReturn == IsEv("Return") /\ ReturnOk /\ Accept /\ returned' = TRUE /\ UNCHANGED <<recs, sel, stages, limit, exp, open, unsorted, matched>> /\ UNCHANGED strm
 
 Explained == \/ Ev.ev \in {"Run", "StorageSelect"}
              \/ Ev.ev = "Entry" /\ EntryOk
